@@ -78,6 +78,55 @@ def Ctx.notifySubChange (c : Ctx) (t : Topic) (uid actor : Uid) (oldWant oldGive
 structure SubResult where
   modeChanged : Option (Mode × Mode) := none     -- (want, given) reported in params.acs
 
+/-! The permission decisions of thisUserSub / anotherUserSub as pure functions (the handlers below only sequence them with
+the store calls and notifications). -/
+
+/-- grant of a first-time subscriber: the previous grant if a soft-deleted row exists, else the topic's default access with
+the owner bit cleared (topic.go:1567-1578) -/
+def newSubGiven (defAcc given0 : Mode) : Mode := if given0 = modeUnset then defAcc &&& ~~~modeOwner else given0
+/-- requested mode of a first-time subscriber: as asked or the default, never with the owner bit (topic.go:1580-1589) -/
+def newSubWant (defAcc modeWant0 : Mode) : Mode := (if modeWant0 = modeUnset then defAcc else modeWant0) &&& ~~~modeOwner
+
+/-- sanity checks on an explicit requested mode of an existing subscriber (topic.go:1661-1702): `error` = 403. Returns the
+per-user data (the grant may be raised by the owner or an administrator for themselves), the mode and whether this is the
+acceptance of an ownership transfer. -/
+def selfModeCheck (owner u : Uid) (ud0 : PUD) (modeWant0 : Mode) : Except Unit (PUD × Mode × Bool) :=
+  if modeWant0 = modeUnset then .ok (ud0, modeWant0, false)
+  else if owner = u ∧ (!isOwner modeWant0 ∨ !isJoiner modeWant0) then .error ()
+  else if isOwner ud0.given then
+    let ownerChange := isOwner modeWant0 && !isOwner ud0.want
+    let ud := if isOwner modeWant0 ∧ !betterEqual ud0.given modeWant0 then { ud0 with given := ud0.given ||| modeWant0 } else ud0
+    .ok (ud, modeWant0, ownerChange)
+  else if isOwner modeWant0 then .error ()
+  else if isAdmin ud0.given ∧ isAdmin modeWant0 then
+    let ud := if !betterEqual ud0.given (modeWant0 &&& ~~~modeDelete) then { ud0 with given := ud0.given ||| (modeWant0 &&& ~~~modeDelete) } else ud0
+    .ok (ud, modeWant0, false)
+  else .ok (ud0, modeWant0, false)
+
+/-- the requested mode after the checks (topic.go:1704-1720) -/
+def selfWant (owner u : Uid) (defAcc : Mode) (ud : PUD) (oldWant modeWant : Mode) : PUD :=
+  if modeWant = modeUnset then
+    -- un-self-ban: no worse than the default; ownership is not picked up this way unless the user is the owner
+    (if !isJoiner oldWant then
+      { ud with want := if owner ≠ u then (ud.given ||| defAcc) &&& ~~~modeOwner else ud.given ||| defAcc }
+     else ud)
+  else if ud.want ≠ modeWant then { ud with want := modeWant } else ud
+
+/-- the previous owner once a transfer is accepted (topic.go:1751-1755) -/
+def stripOwner (od : PUD) : PUD := { od with given := od.given &&& ~~~modeOwner, want := od.want &&& ~~~modeOwner }
+
+/-- who may act on somebody else's subscription and with which mode (topic.go:1852-1896): `true` = 403 -/
+def inviteRefused (owner actor : Uid) (hostMode modeGiven0 : Mode) : Bool :=
+  (decide (modeGiven0 ≠ modeUnset) && !isAdmin hostMode) || (isOwner modeGiven0 && decide (owner ≠ actor))
+/-- grant of an invited user (topic.go:1911-1918) -/
+def inviteGiven (defAuth modeGiven0 : Mode) : Mode := if modeGiven0 = modeUnset then (defAuth &&& ~~~modeOwner) ||| modeJoin else modeGiven0
+/-- requested mode recorded for an invited user (topic.go:1928-1948): ownership is never pre-accepted -/
+def inviteWantPrev (prevWant : Mode) : Mode := prevWant &&& ~~~modeOwner
+def inviteWantDefault (userAuth modeGiven : Mode) : Mode := userAuth &&& modeGiven &&& ~~~modeOwner
+/-- a change of an existing grant is refused (403) when it would demote or ban the owner (topic.go:1990-1996) -/
+def grantRefused (owner target : Uid) (ud0 : PUD) (modeGiven : Mode) : Bool :=
+  decide (modeGiven ≠ ud0.given) && decide (owner = target) && (!isOwner modeGiven || !isJoiner modeGiven)
+
 /-- returns `none` when the request was refused (a reply has been queued) -/
 def Ctx.thisUserSub (c : Ctx) (t : Topic) (a : Actor) (want : String) (priv : PrivArg) (newsubFlag : Bool)
     (replyName : String := "") : Ctx × Topic × Option SubResult :=
@@ -99,8 +148,8 @@ def Ctx.thisUserSub (c : Ctx) (t : Topic) (a : Actor) (want : String) (priv : Pr
     | some sub =>
     let given0 : Mode := match sub with | some s => s.given | none => modeUnset
     -- ownership is never given by default nor requested by a new subscriber (topic.go:1575-1589)
-    let given := if given0 = modeUnset then t.accessFor a.lvl &&& ~~~modeOwner else given0
-    let wantM := (if modeWant0 = modeUnset then t.accessFor a.lvl else modeWant0) &&& ~~~modeOwner
+    let given := newSubGiven (t.accessFor a.lvl) given0
+    let wantM := newSubWant (t.accessFor a.lvl) modeWant0
     if !isJoiner given then (c.emit a.sid (ctrl 403 rn), t, none) else
     let privTok : Tok := match priv with | .val s => some s | _ => none
     let ud : PUD := { want := wantM, given := given, priv := privTok }
@@ -123,28 +172,11 @@ def Ctx.thisUserSub (c : Ctx) (t : Topic) (a : Actor) (want : String) (priv : Pr
     let oldWant := ud0.want
     let oldGiven := ud0.given
     -- sanity checks on an explicit mode
-    let chk : Except Unit (PUD × Mode × Bool) :=
-      if modeWant0 = modeUnset then .ok (ud0, modeWant0, false)
-      else if t.owner = a.uid ∧ (!isOwner modeWant0 ∨ !isJoiner modeWant0) then .error ()
-      else if isOwner ud0.given then
-        let ownerChange := isOwner modeWant0 && !isOwner ud0.want
-        let ud := if isOwner modeWant0 ∧ !betterEqual ud0.given modeWant0 then { ud0 with given := ud0.given ||| modeWant0 } else ud0
-        .ok (ud, modeWant0, ownerChange)
-      else if isOwner modeWant0 then .error ()
-      else if isAdmin ud0.given ∧ isAdmin modeWant0 then
-        let ud := if !betterEqual ud0.given (modeWant0 &&& ~~~modeDelete) then { ud0 with given := ud0.given ||| (modeWant0 &&& ~~~modeDelete) } else ud0
-        .ok (ud, modeWant0, false)
-      else .ok (ud0, modeWant0, false)
+    let chk := selfModeCheck t.owner a.uid ud0 modeWant0
     match chk with
     | .error _ => (c.emit a.sid (ctrl 403 rn), t, none)
     | .ok (ud, modeWant, ownerChange) =>
-    let ud :=
-      if modeWant = modeUnset then
-        -- un-self-ban: no worse than the default; ownership is not picked up this way unless the user is the owner
-        (if !isJoiner oldWant then
-          { ud with want := if t.owner ≠ a.uid then (ud.given ||| t.accessFor a.lvl) &&& ~~~modeOwner else ud.given ||| t.accessFor a.lvl }
-         else ud)
-      else if ud.want ≠ modeWant then { ud with want := modeWant } else ud
+    let ud := selfWant t.owner a.uid (t.accessFor a.lvl) ud oldWant modeWant
     -- private
     let (ud, privUpd) : PUD × Bool := match priv with
       | .null => ({ ud with priv := none }, true)
@@ -163,7 +195,7 @@ def Ctx.thisUserSub (c : Ctx) (t : Topic) (a : Actor) (want : String) (priv : Pr
     let res : Ctx × Option Topic :=
       if ownerChange then
         let od := t.pud t.owner
-        let od' := { od with given := od.given &&& ~~~modeOwner, want := od.want &&& ~~~modeOwner }
+        let od' := stripOwner od
         let (c, ok1) := c.subsUpdate tn t.owner (fun s => { s with want := od'.want, given := od'.given })
         if !ok1 then (c, none) else
         let (c, ok2) := c.call "TopicOwnerChange" (fun w => match w.row? tn with
@@ -198,25 +230,24 @@ def Ctx.anotherUserSub (c : Ctx) (t : Topic) (a : Actor) (target : Uid) (mode : 
   match (if mode = "" then Except.ok modeUnset else unmarshal modeUnset mode.toList) with
   | .error _ => (c.emit a.sid (ctrl 400 tn), t, none)
   | .ok modeGiven0 =>
-  if modeGiven0 ≠ modeUnset ∧ !isAdmin hostMode then (c.emit a.sid (ctrl 403 tn), t, none) else
-  if isOwner modeGiven0 ∧ t.owner ≠ a.uid then (c.emit a.sid (ctrl 403 tn), t, none) else
+  if inviteRefused t.owner a.uid hostMode modeGiven0 then (c.emit a.sid (ctrl 403 tn), t, none) else
   match t.pud? target with
   | none =>
     if t.perUser.length ≥ c.w.maxSubs then (c.emit a.sid (ctrl 422 tn), t, none) else
-    let modeGiven := if modeGiven0 = modeUnset then ((t.accessFor .auth) &&& ~~~modeOwner) ||| modeJoin else modeGiven0
+    let modeGiven := inviteGiven (t.accessFor .auth) modeGiven0
     let (c, got) := c.subsGet tn target true
     match got with
     | none => (c.emit a.sid (ctrl 500 tn), t, none)
     | some sub =>
     -- the invitee's requested mode: the previous one, or the user's default limited by the grant
     let res : Ctx × Option Mode := match sub with
-      | some s => (c, some (s.want &&& ~~~modeOwner))
+      | some s => (c, some (inviteWantPrev s.want))
       | none =>
         let (c, ok) := c.call "UserGet"
         if !ok then (c.emit a.sid (ctrl 500 tn), none) else
         match c.w.user? target with
         | none => (c.emit a.sid (ctrl 404 tn), none)
-        | some u => if u.suspended then (c.emit a.sid (ctrl 403 tn), none) else (c, some (u.auth &&& modeGiven &&& ~~~modeOwner))
+        | some u => if u.suspended then (c.emit a.sid (ctrl 403 tn), none) else (c, some (inviteWantDefault u.auth modeGiven))
     match res with
     | (c, none) => (c, t, none)
     | (c, some modeWant) =>
@@ -236,7 +267,7 @@ def Ctx.anotherUserSub (c : Ctx) (t : Topic) (a : Actor) (target : Uid) (mode : 
     let oldGiven := ud0.given
     let oldWant := ud0.want
     let modeGiven := if modeGiven0 = modeUnset then ud0.given else modeGiven0
-    if modeGiven ≠ ud0.given ∧ t.owner = target ∧ (!isOwner modeGiven ∨ !isJoiner modeGiven) then
+    if grantRefused t.owner target ud0 modeGiven then
       (c.emit a.sid (ctrl 403 tn), t, none)
     else
     let r : Ctx × Option PUD :=
